@@ -472,6 +472,7 @@ func (s *Sim) ForkParty(x int) *Party {
 		r.Fail("reload-error", "%s: channel does not reopen from its database after a crash at this point: %v", nm(x), err)
 	}
 	np.Chan = ch
+	np.LoadStale(r)
 	return np
 }
 
